@@ -328,9 +328,14 @@ func (txmp *TxMempool) ReapMaxBytesMaxGas(maxBytes, maxGas int64) types.Txs {
 	for _, w := range txmp.allEntriesSorted() {
 		// N.B. When computing byte size, we need to include the overhead for
 		// encoding as protobuf to send to the application.
+		// totalGas + gasWanted can be as large as 2*maxGas and overflow:
+		// compare without forming the sum.
+		if maxGas >= 0 && w.gasWanted > 0 && totalGas > maxGas-w.gasWanted {
+			break
+		}
 		totalGas += w.gasWanted
 		totalBytes += types.ComputeProtoSizeForTxs([]types.Tx{w.tx})
-		if (maxGas >= 0 && totalGas > maxGas) || (maxBytes >= 0 && totalBytes > maxBytes) {
+		if maxBytes >= 0 && totalBytes > maxBytes {
 			break
 		}
 		keep = append(keep, w.tx)
